@@ -13,13 +13,11 @@
 (* record so that they can be used both as actions of the model and as     *)
 (* the oracle of trace validation.                                         *)
 (***************************************************************************)
-EXTENDS Integers, Sequences, FiniteSets, SequencesExt, TLC
+EXTENDS Integers, Sequences, FiniteSets, SequencesExt, TLC, RVSeq
 
 NMods(s) == Len(s.inl)
 EmptyTables(n) == LET e == [i \in 1..n |-> <<>>] IN [inl |-> e, ins |-> e, outl |-> e, outs |-> e]
 
-Has(q, x)     == \E i \in 1..Len(q) : q[i] = x
-IndexOf(q, x) == CHOOSE i \in 1..Len(q) : q[i] = x /\ \A j \in 1..(i-1) : q[j] # x
 
 (* -------- one pair: Project.connect(from, to) for a single (from, to) ---- *)
 ConnectPair(s, f, t) ==                      \* f, t zero-based module indices
